@@ -88,6 +88,9 @@ def run(model, res, tier):
         m, f = model.registered(n)
         keys.append((m.name, m.qualname_of(f)))
     region = c.cg.reachable(keys)
+    res.rule('RX', 'where a function answers "an error rather than a value" by raising, the catch-all of parse() turns every exception class into #ERROR! (shared with C01.R1)')
+    from . import c01 as _c01
+    H.borrow(res, 'RX', 'catch-all of parse()', lambda tmp: _c01.catch_all_rule(model, tmp, c))
     purity.check_region(res, c, 'R6', None, region, 'a math function')
     purity.check_memo(res, c, 'R6', region, 'a math function')
 
@@ -247,6 +250,51 @@ def _random(model, res):
     def is_int_of(v, nm):
         return isinstance(v, Atom) and v.op == 'int' and getattr(v.args[0], 'name', None) == nm
 
+    # the draw as an integer range in linear forms over a and b: [lo, hi] must be [int(a), int(b)], both ends included
+    try:
+        outs2 = _runs(model, 'RANDBETWEEN', lambda: [Aff(1, 0, 'int', 'a'), Aff(1, 0, 'int', 'b')])
+    except Unmodelled:
+        outs2 = []
+
+    def aff(v):
+        if isinstance(v, Aff):
+            return v
+        if isinstance(v, Const) and isinstance(v.value, int) and not isinstance(v.value, bool):
+            return Aff(0, v.value, 'int')
+        if isinstance(v, Atom) and v.op == 'int' and len(v.args) == 1:
+            return aff(v.args[0])
+        return None
+
+    def draw_range(v):
+        from ..absmodels import arith
+        if isinstance(v, Atom) and v.op == 'random.randint' and len(v.args) == 2:
+            return aff(v.args[0]), aff(v.args[1])
+        if isinstance(v, Atom) and v.op == 'random.randrange' and len(v.args) == 2:
+            hi = aff(v.args[1])
+            return aff(v.args[0]), (None if hi is None else arith(None, 'sub', hi, Const(1)))
+        if isinstance(v, Atom) and v.op in ('add', 'sub') and len(v.args) == 2:
+            for x, y, flip in ((v.args[0], v.args[1], False), (v.args[1], v.args[0], True)):
+                base, rng = aff(x), draw_range(y)
+                if base is not None and rng is not None and None not in rng and not (v.op == 'sub'):
+                    return arith(None, 'add', base, rng[0]), arith(None, 'add', base, rng[1])
+        return None
+    decided = False
+    for o in outs2:
+        if o.imprecise or o.kind != 'return':
+            continue
+        rng = draw_range(o.value)
+        if rng is None or None in rng:
+            continue
+        decided = True
+        lo, hi = rng
+        okr = isinstance(lo, Aff) and isinstance(hi, Aff) and dict(lo.coeffs) == {'a': 1} and lo.const == 0 and dict(hi.coeffs) == {'b': 1} and hi.const == 0
+        res.ob('R3', 'RANDBETWEEN', {'draw': repr(o.value)[:80], 'range': '[%r, %r]' % (lo, hi)}, okr)
+        if not okr:
+            res.violation('R3', 'function:RANDBETWEEN:range', m.where(f),
+                          'RANDBETWEEN(a, b) draws from [%r, %r]; it must be an integer from the inclusive range [a, b] (b itself can come out, and '
+                          'a = b leaves exactly one value)' % (lo, hi), func=f.name)
+    if decided:
+        return
     ok = len(outs) == 1 and outs[0].kind == 'return' and isinstance(outs[0].value, Atom)
     if ok:
         v = outs[0].value
